@@ -32,6 +32,11 @@ MaskVal(f, v) == IF f.t = "b" THEN (IF IsT(f) THEN v ELSE ZeroLike(v))
                      [] v.t = "m" -> Mk(MaskVal(f, v.k[1]), MaskVal(f, v.k[2]))
                      [] OTHER     -> v
 MkN(f, v) == Mk(f, MaskVal(f, v))      \* normalised mask: invalid content is zero
+\* the content of a mask whose (scalar) flag is False is not observable: compare it as None
+RECURSIVE NormV(_)
+NormV(v) == CASE v.t = "m" -> IF v.k[1].t = "b" /\ ~IsT(v.k[1]) THEN Mk(v.k[1], Nn) ELSE Mk(v.k[1], NormV(v.k[2]))
+              [] v.t \in {"t", "v"} -> [v EXCEPT !.k = [j \in 1..Len(v.k) |-> NormV(v.k[j])]]
+              [] OTHER -> v
 
 \* Stack a non-empty sequence of equally shaped values along a new leading axis
 \* (struct-of-arrays, as jax.vmap / lax.scan return them).
